@@ -119,7 +119,15 @@ def replay_file(path):
                 ff[c["entry"]] = r["events"]
         cell = rf["cell"]
         for _ in range(6 if sc.census.get("selects") else 1):
-            rr = c11.run_bubbles(sc, testbin, dict(job, replay=cell), 1)
+            if rf.get("prefix"):
+                px = rf["prefix"]
+                fulljob = dict(job, seed=px["seed"], k=px["k"], failures=c11.failures(sc), consumers=c11.CONSUMERS)
+                one = c11.run_prefix(sc, testbin, fulljob, px["shard"], px["nshard"], px["idx"])
+                rr = [one] if one else []
+                if not rr:
+                    break
+            else:
+                rr = c11.run_bubbles(sc, testbin, dict(job, replay=cell), 1)
             found = ["%s:%s:%s" % (cls, sd, cell["failure"]["id"]) for cls, sd, _ in c11.judge(rr[0], ff.get(cell["entry"]), sc.census["operations"], None)]
             again = want["sig"] in found
             if again:
